@@ -36,6 +36,12 @@ func (c *PairingController) Handle(cont util.Container) (util.Container, error) 
 
 	entity := db.NewEntity(username, publicKey, nil)
 
+	// The entity of the accessory itself (the one with a private key) is stored in the same database.
+	// It is not a pairing: it must not be replaced or removed by a controller which uses its name.
+	if stored, err := c.database.EntityWithName(username); err == nil && len(stored.PrivateKey) > 0 {
+		return nil, fmt.Errorf("Invalid pairing name %s", username)
+	}
+
 	out := util.NewTLV8Container()
 	out.SetByte(TagSequence, 0x2)
 
